@@ -101,6 +101,7 @@ func NewRouter(doc *openapi3.T) (routers.Router, error) {
 
 // FindRoute extracts the route and parameters of an http.Request
 func (r *Router) FindRoute(req *http.Request) (*routers.Route, map[string]string, error) {
+	methodMismatch := false
 	for i, m := range r.muxes {
 		var match mux.RouteMatch
 		if m.muxRoute.Match(req, &match) {
@@ -119,9 +120,13 @@ func (r *Router) FindRoute(req *http.Request) (*routers.Route, map[string]string
 		switch match.MatchErr {
 		case nil:
 		case mux.ErrMethodMismatch:
-			return nil, nil, routers.ErrMethodNotAllowed
+			// another path template may match the URL and declare the method
+			methodMismatch = true
 		default: // What then?
 		}
+	}
+	if methodMismatch {
+		return nil, nil, routers.ErrMethodNotAllowed
 	}
 	return nil, nil, routers.ErrPathNotFound
 }
